@@ -347,6 +347,9 @@ theorem descend_sound (hH : HostOk H) (rw rec : E → Prec → Option E)
           cases hax : assignable x
           · simp [hop, hax] at hguard
           · rfl
+        by_cases hlt : ((op == .lt || op == .shl) && startsNotLit y) = true
+        · rw [if_pos hlt] at h; cases h
+        rw [if_neg hlt] at h
         cases hh : hoistList op x p with
         | none =>
           simp only [hh] at h
